@@ -8,7 +8,9 @@
 From Coq Require Import String ZArith List Bool Lia.
 From MW Require Import Model.Base Model.F64 Model.Num Model.Digits Model.F64Fmt Model.NumFmt
   Model.Datum Model.Lex Model.Parse
-  Proofs.LexProofs Proofs.DigitsProofs Proofs.NumFmtProofs Proofs.LiteralProofs.
+  Proofs.LexProofs Proofs.ParseProofs Proofs.DigitsProofs Proofs.NumFmtProofs Proofs.LiteralProofs
+  Proofs.FloatProofs Proofs.FloatLiteralProofs.
+From Flocq Require Import IEEE754.BinarySingleNaN.
 Open Scope N_scope.
 
 (* ------------------------------------------------------------ generalities *)
@@ -349,3 +351,244 @@ Proof.
   { destruct (flat_map write_string_char s); discriminate. }
   rewrite <- El, removelast_snoc, (parse_string_write s Hs). reflexivity.
 Qed.
+
+(* ================================================================ Part C *)
+(* ---- a token that ends the text still ends where it did when a delimiter follows *)
+Lemma delim_cases post : delim post -> post = [] \/ exists p, post = 32 :: p \/ post = 41 :: p.
+Proof. destruct post as [|c p]; [auto|]. intros [-> | ->]; right; exists p; auto. Qed.
+
+Lemma span_ext p (r : list N) : (p 32 = false) -> (p 41 = false) -> forall a, span p r = (a, []) ->
+  forall post, delim post -> span p (r ++ post) = (r, post).
+Proof.
+  intros H32 H41. induction r as [|c r IH]; intros a H post Hd.
+  - cbn [app]. destruct (delim_cases post Hd) as [->|(q & [-> | ->])]; cbn [span]; rewrite ?H32, ?H41; reflexivity.
+  - cbn [span app] in *. destruct (p c).
+    + destruct (span p r) as [a1 b1] eqn:E. injection H as <- ->. rewrite (IH _ eq_refl post Hd). reflexivity.
+    + discriminate.
+Qed.
+
+Lemma scan_number_rest_ext (r : list N) : forall ty0 a ty, scan_number_rest r ty0 = (a, ty, []) ->
+  forall post, delim post -> scan_number_rest (r ++ post) ty0 = (r, ty, post).
+Proof.
+  induction r as [|c r IH]; intros ty0 a ty H post Hd.
+  - cbn in H. injection H as <- <-. cbn [app].
+    destruct (delim_cases post Hd) as [->|(q & [-> | ->])]; reflexivity.
+  - cbn [scan_number_rest app] in *. destruct (is_subsequent_number c).
+    + destruct (scan_number_rest r ty0) as [[a1 t1] b1] eqn:E. injection H as <- <- ->.
+      rewrite (IH _ _ _ E post Hd). reflexivity.
+    + destruct (is_subsequent_identifier c && negb (c =? 59)).
+      * destruct (scan_number_rest r TSymbol) as [[a1 t1] b1] eqn:E. injection H as <- <- ->.
+        rewrite (IH _ _ _ E post Hd). reflexivity.
+      * discriminate.
+Qed.
+
+Lemma scan_dot_rest_ext (r : list N) : forall ty0 a ty, scan_dot_rest r ty0 = (a, ty, []) ->
+  forall post, delim post -> scan_dot_rest (r ++ post) ty0 = (r, ty, post).
+Proof.
+  induction r as [|c r IH]; intros ty0 a ty H post Hd.
+  - cbn in H. injection H as <- <-. cbn [app].
+    destruct (delim_cases post Hd) as [->|(q & [-> | ->])]; [reflexivity| |]; destruct ty0; reflexivity.
+  - cbn [scan_dot_rest app] in *.
+    match type of H with (if ?chk then _ else _) = _ => destruct chk end; [|discriminate].
+    match type of H with context [scan_dot_rest r ?t] =>
+      destruct (scan_dot_rest r t) as [[a1 t1] b1] eqn:E end.
+    injection H as <- <- ->. rewrite (IH _ _ _ E post Hd). reflexivity.
+Qed.
+
+Lemma lex1_ext (c : N) (r : list N) ty : lex1 c r = STok ty (c :: r) [] -> (ty = TSymbol \/ ty = TNumber) ->
+  forall post, delim post -> lex1 c (r ++ post) = STok ty (c :: r) post.
+Proof.
+  intros H Hty post Hd. unfold lex1 in *.
+  assert (Hno : forall ty' a b, (ty' <> TSymbol /\ ty' <> TNumber) -> STok ty' a b = STok ty (c :: r) [] -> False).
+  { intros ty' a b [N1 N2] E. injection E as -> _ _. destruct Hty; congruence. }
+  destruct (mem c [40; 91; 123]); [exfalso; eapply Hno; [|exact H]; split; discriminate|].
+  destruct (mem c [41; 93; 125]); [exfalso; eapply Hno; [|exact H]; split; discriminate|].
+  destruct (c =? 39); [exfalso; eapply Hno; [|exact H]; split; discriminate|].
+  destruct (c =? 96); [exfalso; eapply Hno; [|exact H]; split; discriminate|].
+  destruct (c =? 44); [exfalso; eapply Hno; [|exact H]; split; discriminate|].
+  destruct (c =? 35).
+  { exfalso. destruct r as [|c2 r2]; [discriminate|].
+    destruct (c2 =? 116); [eapply Hno; [|exact H]; split; discriminate|].
+    destruct (c2 =? 102); [eapply Hno; [|exact H]; split; discriminate|].
+    destruct (c2 =? 40); [eapply Hno; [|exact H]; split; discriminate|].
+    destruct (mem c2 [101; 105; 98; 111; 100; 120]); [eapply Hno; [|exact H]; split; discriminate|].
+    destruct (c2 =? 92); [|discriminate].
+    destruct r2 as [|c3 r3]; [discriminate|].
+    destruct (negb (is_ascii_alpha c3)); [eapply Hno; [|exact H]; split; discriminate|].
+    destruct (span is_ascii_alnum r3); eapply Hno; [|exact H]; split; discriminate. }
+  destruct (c =? 46).
+  { destruct r as [|c2 r2].
+    - exfalso. cbn in H. eapply Hno; [|exact H]; split; discriminate.
+    - cbn [app].
+      match type of H with context [scan_dot_rest (c2 :: r2) ?t] =>
+        destruct (scan_dot_rest (c2 :: r2) t) as [[a1 t1] b1] eqn:E end.
+      injection H as -> -> ->.
+      change (c2 :: r2 ++ post) with ((c2 :: r2) ++ post).
+      rewrite (scan_dot_rest_ext _ _ _ _ E post Hd). reflexivity. }
+  destruct (c =? 34).
+  { exfalso. destruct (scan_string_rest r false) as [[a1 b1]|]; [|discriminate].
+    eapply Hno; [|exact H]; split; discriminate. }
+  destruct (is_initial_identifier c).
+  { destruct (span is_subsequent_identifier r) as [a1 b1] eqn:E. injection H as -> -> ->.
+    rewrite (span_ext is_subsequent_identifier r eq_refl eq_refl _ E post Hd). reflexivity. }
+  destruct (is_initial_number c).
+  { destruct (scan_number_rest r TNumber) as [[a1 t1] b1] eqn:E. injection H as -> -> ->.
+    rewrite (scan_number_rest_ext _ _ _ _ E post Hd). reflexivity. }
+  destruct (c =? 59); [destruct (skip_comment r); discriminate|].
+  destruct (is_ws_latin1 c); discriminate.
+Qed.
+
+(* ---- what the parser makes of ONE token of a leaf type whose text is [w] *)
+Definition leaf_type (ty : ttype) : Prop :=
+  ty = TTrue \/ ty = TFalse \/ ty = TChar \/ ty = TString \/ ty = TSymbol \/ ty = TNumber.
+
+Definition leaf_parse (ty : ttype) (w : text) : out cell :=
+  match ty with
+  | TTrue => Ok (CBool true)
+  | TFalse => Ok (CBool false)
+  | TChar => parse_char w
+  | TString => match w with [] | [_] => Panic 5 | _ :: body => parse_string (removelast body) end
+  | TSymbol => Ok (CSym w)
+  | TNumber => do n <- parse_with_exactness w Unspecified 10%Z;
+               Ok (match n with Some n => CNum n | None => CSym w end)
+  | _ => Err E_OTHER
+  end.
+
+Lemma parse_leaf f t k rest ty w : t_ty k = ty -> leaf_type ty -> tok_span t k = Ok w ->
+  parse (S f) t (k :: rest) = (do a <- leaf_parse ty w; Ok (a, rest)).
+Proof.
+  intros Ek Hty Hs. cbn [parse]. rewrite Ek.
+  destruct Hty as [-> | [-> | [-> | [-> | [-> | ->]]]]]; cbn [leaf_parse].
+  - reflexivity.
+  - reflexivity.
+  - rewrite Hs. cbn [bind]. destruct (parse_char w); reflexivity.
+  - rewrite Hs. cbn [bind]. destruct w as [|x [|y body]]; reflexivity.
+  - rewrite Hs. reflexivity.
+  - rewrite parse_number_leaf by (rewrite Ek; discriminate). rewrite Hs. cbn [bind].
+    destruct (parse_with_exactness w Unspecified 10) as [[n|]| | |]; reflexivity.
+Qed.
+
+(* ---- atoms: [atom_ok a a']: the written form of [a] is one leaf token, also when a
+   delimiter follows, and the parser makes [a'] of it *)
+Definition atom_ok (a a' : cell) : Prop :=
+  exists (c : N) (r : list N) ty, write a = c :: r /\ leaf_type ty /\
+    (forall post, delim post -> lex1 c (r ++ post) = STok ty (c :: r) post) /\
+    leaf_parse ty (c :: r) = Ok a'.
+
+Theorem atom_parse_text a a' : atom_ok a a' -> parse_text (write a) = Ok (a', None).
+Proof.
+  intros (c & r & ty & Ew & Hty & Hlex & Hp). rewrite Ew.
+  pose proof (Hlex [] I) as Hl. rewrite app_nil_r in Hl.
+  unfold parse_text. nrw (scan_one _ _ _ Hl). cbn [bind]. unfold parse_fuel.
+  nrw (parse_leaf (2 * length [mk_token 0 (blen (c :: r)) ty]) (c :: r) (mk_token 0 (blen (c :: r)) ty) [] ty (c :: r) eq_refl Hty (tok_span_whole _ _)).
+  nrw Hp. reflexivity.
+Qed.
+
+Lemma atom_bool b : atom_ok (CBool b) (CBool b).
+Proof.
+  destruct b.
+  - exists 35, [116], TTrue. split; [reflexivity|]. split; [left; reflexivity|]. split; [|reflexivity].
+    intros post _. reflexivity.
+  - exists 35, [102], TFalse. split; [reflexivity|]. split; [right; left; reflexivity|]. split; [|reflexivity].
+    intros post _. reflexivity.
+Qed.
+
+Lemma atom_char c : atom_ok (CChar c) (CChar c).
+Proof.
+  destruct (lex1_char c [] I) as (body & Eb & _).
+  exists 35, (92 :: body), TChar. split; [exact Eb|]. split; [right; right; left; reflexivity|]. split.
+  - intros post Hd. destruct (lex1_char c post Hd) as (body' & Eb' & Hl).
+    rewrite Eb in Eb'. injection Eb' as <-. rewrite Eb in Hl. exact Hl.
+  - cbn [leaf_parse]. rewrite <- Eb. apply parse_char_write.
+Qed.
+
+Lemma atom_string s : Forall (fun c => is_scalar c = true) s -> atom_ok (CStr s) (CStr s).
+Proof.
+  intros Hs. exists 34, (flat_map write_string_char s ++ [34]), TString.
+  split; [reflexivity|]. split; [right; right; right; left; reflexivity|]. split.
+  - intros post _. rewrite <- app_assoc. cbn [app]. apply lex1_string.
+  - cbn [leaf_parse].
+    destruct (flat_map write_string_char s ++ [34]) as [|x l] eqn:El.
+    { destruct (flat_map write_string_char s); discriminate. }
+    rewrite <- El, removelast_snoc. apply parse_string_write, Hs.
+Qed.
+
+(* the reader's symbols (DESIGN C10): the spelling scans to one Symbol token, or to one
+   Number token that fails the radix-10 parse *)
+Definition reader_symbol (s : text) : Prop :=
+  exists (c : N) (r : list N), s = c :: r /\
+    (lex1 c r = STok TSymbol (c :: r) [] \/
+     (lex1 c r = STok TNumber (c :: r) [] /\ parse_with_exactness (c :: r) Unspecified 10%Z = Ok None)).
+
+Lemma atom_symbol s : reader_symbol s -> atom_ok (CSym s) (CSym s).
+Proof.
+  intros (c & r & -> & [H|[H Hp]]).
+  - exists c, r, TSymbol. split; [reflexivity|]. split; [unfold leaf_type; tauto|]. split; [|reflexivity].
+    intros post Hd. apply lex1_ext; auto.
+  - exists c, r, TNumber. split; [reflexivity|]. split; [unfold leaf_type; tauto|]. split.
+    + intros post Hd. apply lex1_ext; auto.
+    + cbn [leaf_parse]. nrw Hp. reflexivity.
+Qed.
+
+(* exact numbers, through the C16 lemmas: the decimal text is one Number token and
+   Number::parse gives the number back in its normal representation *)
+Lemma num_display_exact n : exact_wf n -> num_display n = exact_text 10 n.
+Proof. destruct n; cbn; intros; try reflexivity. contradiction. Qed.
+
+Lemma decimal_head n : exact_wf n -> exists (c : N) (rest : list N),
+  exact_text 10 n = c :: rest /\ lex1 c rest = STok TNumber (c :: rest) [].
+Proof.
+  intros Hwf.
+  assert (Hr : is_prefix_radix 10) by (unfold is_prefix_radix; cbn; tauto).
+  destruct (exact_text_shape 10 n Hr Hwf) as (c & rest & E & Hc & Hrest).
+  exists c, rest. split; [exact E|].
+  destruct (lex1_spelling c rest Hc Hrest) as (ty & Hlex & Hty).
+  (* in radix 10 the first character is '-' or a decimal digit *)
+  assert (Hdec : c = 45 \/ decdigit c).
+  { destruct n as [z|z|a b|f]; cbn [exact_text exact_wf] in *; try contradiction.
+    all: try (unfold ratio_fmt in E; destruct (b =? 1)%Z).
+    all: match type of E with
+         | show_int_radix 10 ?z = _ =>
+             destruct (Z_lt_le_dec z 0) as [Hz|Hz];
+             [rewrite show_int_radix_neg in E by assumption; injection E as <- _; left; reflexivity
+             |rewrite show_int_radix_pos in E by assumption;
+              destruct (show_nat_radix10_head z Hz) as (c' & l' & E' & Hd'); rewrite E' in E;
+              injection E as <- _; right; exact Hd']
+         | show_int_radix 10 ?z ++ _ = _ =>
+             destruct (Z_lt_le_dec z 0) as [Hz|Hz];
+             [rewrite show_int_radix_neg in E by assumption; injection E as <- _; left; reflexivity
+             |rewrite show_int_radix_pos in E by assumption;
+              destruct (show_nat_radix10_head z Hz) as (c' & l' & E' & Hd'); rewrite E' in E;
+              injection E as <- _; right; exact Hd']
+         end. }
+  apply lex1_number; assumption.
+Qed.
+
+Lemma atom_exact n : exact_wf n -> atom_ok (CNum n) (CNum (reread n)).
+Proof.
+  intros Hwf. destruct (decimal_head n Hwf) as (c & rest & E & Hlex).
+  exists c, rest, TNumber. split; [change (write (CNum n)) with (num_display n); rewrite num_display_exact by assumption; exact E|].
+  split; [unfold leaf_type; tauto|]. split.
+  - intros post Hd. apply lex1_ext; auto.
+  - cbn [leaf_parse]. rewrite <- E. unfold parse_with_exactness, parse_with_exactness_p.
+    rewrite number_parse_exact_text by (assumption || lia). reflexivity.
+Qed.
+
+(* finite doubles, RELATIVE to the three OPEN statements of C16 about the executable
+   specification of std's float formatting and parsing (Props/C16.v) *)
+Section FloatAtoms.
+  Hypothesis std_roundtrip : forall x : f64, is_finite x = true -> dec2flt (num_display (Float x)) = Some x.
+  Hypothesis display_point : forall x : f64, is_finite x = true ->
+    f64_ltb F_1E10 x = false -> float_is_integer x = false -> In 46%N (fmt_display x).
+  Hypothesis no_inner_minus : forall x : f64, is_finite x = true -> ~ In 45%N (tl (num_display (Float x))).
+
+  Lemma atom_float x : is_finite x = true -> atom_ok (CNum (Float x)) (CNum (Float x)).
+  Proof.
+    intros Hf. destruct (float_spelling_one_token x Hf (no_inner_minus x Hf)) as (c & rest & E & Hlex).
+    exists c, rest, TNumber. split; [exact E|]. split; [unfold leaf_type; tauto|]. split.
+    - intros post Hd. apply lex1_ext; auto.
+    - cbn [leaf_parse]. unfold cp, text in *. rewrite <- E. unfold parse_with_exactness, parse_with_exactness_p.
+      rewrite number_parse_float_text by (apply num_display_float_text_ok; assumption).
+      rewrite std_roundtrip by assumption. reflexivity.
+  Qed.
+End FloatAtoms.
